@@ -86,12 +86,19 @@ Proof. exact (conj move_as_defined ry_quarter_ok). Qed.
    and nothing else is refused *)
 Theorem c02_refusal :
   (forall g, ~ In (g_name g) registered -> g_is_gate g && Nat.eqb (g_nq g) 2%nat = false -> basis_of g = Refused) /\
-  (forall g, In (g_name g) ["rxx"; "ryy"; "rzz"; "crx"; "cry"; "crz"; "cp"] -> g_param_ok g = false -> basis_of g = Refused) /\
+  (forall g, In (g_name g) ["rxx"; "ryy"; "rzz"; "crx"; "cry"; "crz"; "cp"] -> g_has_param g = true -> g_param_ok g = false ->
+             basis_of g = Refused) /\
   (forall g, ~ In (g_name g) registered -> g_matrix_ok g = false -> basis_of g = Refused) /\
-  (forall g, (In (g_name g) registered -> g_param_ok g = true) ->
+  (forall g, (In (g_name g) ["rxx"; "ryy"; "rzz"; "crx"; "cry"; "crz"; "cp"] -> g_has_param g = true /\ g_param_ok g = true) ->
              (~ In (g_name g) registered -> g_is_gate g = true /\ g_nq g = 2%nat /\ g_matrix_ok g = true) ->
              exists b, basis_of g = Ok b).
 Proof. exact (conj refusal_unregistered (conj refusal_unbound (conj refusal_matrix accepted_otherwise))). Qed.
+
+(* observation, outside the property's quantifier: an instruction that carries a parameterised registered name
+   but has no parameter (not a Qiskit RXX/.../CPhase gate) is rejected with IndexError, not ValueError *)
+Theorem c02_missing_param_crashes : forall g,
+  In (g_name g) ["rxx"; "ryy"; "rzz"; "crx"; "cry"; "crz"; "cp"] -> g_has_param g = false -> basis_of g = Crashed.
+Proof. exact crash_missing_param. Qed.
 
 (* tie to the source *)
 From CKT Require Import Extracted.Facts.
@@ -136,5 +143,6 @@ Print Assumptions c02_kak_model.
 Print Assumptions c02_kak_exact.
 Print Assumptions c02_spec_sanity.
 Print Assumptions c02_refusal.
+Print Assumptions c02_missing_param_crashes.
 Print Assumptions c02_registry.
 Print Assumptions c02_source_tables.
